@@ -176,7 +176,7 @@ TEnv ==
     \/ Is("Skip") /\ UNCHANGED vars /\ PostOKStutter
     \/ Is("End") /\ UNCHANGED vars /\ PostOKStutter
     \* a client that is blocked for ever: only explainable by the known finding D6
-    \/ Is("Hung") /\ UNCHANGED vars /\ Ev.at = "wait" /\ C \in orphans /\ "D6" \in kf
+    \/ Is("Hung") /\ UNCHANGED vars /\ Ev.at = "wait" /\ C \in orphans /\ "D6" \in kf      \* (never: orphans is empty since fix D6)
 
 TNext == TNewInstance \/ TClient \/ TProc \/ TEnv
 TSpec == TInit /\ [][TNext]_tvars
